@@ -80,7 +80,7 @@ def cases(tier, seed):
                 b = max(b, a + 14)      # these need a minimum number of observations (window length / lags)
             nup = int(rng.integers(0, 3)) if cfg[0] in HAS_UPDATE or (cfg[0] == "optional") else 0
             yield {"flat": bool(cfg[0] == "cdeseason" and rng.random() < 0.4), "cfg": cfg, "n": n, "off": int(rng.choice([0, 5, -30, 10 ** 6])), "idx": "range" if rng.random() < 0.5 else "int", "a": a, "b": b,
-                   "gapped": bool(rng.random() < 0.25), "updates": [[int(rng.integers(0, 4)), int(rng.integers(1, 9)), bool(rng.random() < 0.5)] for _ in range(nup)],
+                   "gapped": bool(rng.random() < 0.25), "stride": int(rng.choice([1, 1, 1, 2, 3, 5])), "updates": [[int(rng.integers(0, 4)), int(rng.integers(1, 9)), bool(rng.random() < 0.5)] for _ in range(nup)],
                    "shift": int(rng.choice([1, 7, -30, 10 ** 6])), "dseed": int(rng.integers(0, 2 ** 31))}
 
 
@@ -145,8 +145,14 @@ def run_case(case, ctx):
     if case["gapped"] and len(positions) > 4:
         positions = [p for p in positions if (p - a) % 3 != 1]
     z = _mk(full[positions], a, case["idx"], off, positions=positions if case["gapped"] else None)
+    stride = case.get("stride", 1)
+    if stride > 1 and not case["gapped"] and (b - a) > 2 * stride:
+        # regularly strided stretch, e.g. z.iloc[::2]: a RangeIndex with step > 1 (or the same labels as a plain Index)
+        positions = list(range(a, b, stride))
+        idx = pd.RangeIndex(off + a, off + b, stride) if case["idx"] == "range" else pd.Index(off + np.asarray(positions))
+        z = pd.Series(full[positions], index=idx)
     acf_like = kind in ("acf", "pacf")
-    if kind in ("hampel", "acf", "pacf", "imputer", "detrend_naive") and case["gapped"]:
+    if kind in ("hampel", "acf", "pacf", "imputer", "detrend_naive") and (case["gapped"] or len(positions) != b - a):
         z = _mk(full[a:b], a, case["idx"], off)     # these work on positions of a gap-free series
         positions = list(range(a, b))
     ok, zt = ctx.call("transform:exception:" + kind, tr.transform, z.copy())
@@ -205,7 +211,7 @@ def run_case(case, ctx):
             okk, _ = ctx.call("update:exception:" + kind, tr2.update, batch, update_params=up)
             good = good and okk
             pos2 += size
-        zs = pd.Series(z.values.copy(), index=z.index + k) if not isinstance(z.index, pd.RangeIndex) else pd.Series(z.values.copy(), index=pd.RangeIndex(z.index.start + k, z.index.stop + k))
+        zs = pd.Series(z.values.copy(), index=z.index + k) if not isinstance(z.index, pd.RangeIndex) else pd.Series(z.values.copy(), index=pd.RangeIndex(z.index.start + k, z.index.stop + k, z.index.step))
         if good:
             ok, zts = ctx.call("transform:exception:" + kind, tr2.transform, zs)
             if ok:
@@ -217,5 +223,5 @@ def run_case(case, ctx):
                           shifted=np.asarray(zts, dtype=float)[:6].tolist())
     ctx.event(transformer=kind, cfg=cfg[1], n=n, off=off, stretch=[a, b], gapped=case["gapped"], updates=case["updates"], shift=k)
     ctx.tag("kind:" + kind)
-    if a % max(cfg[1].get("sp", 2), 2) != 0 or case["updates"] or case["gapped"] or off:
+    if a % max(cfg[1].get("sp", 2), 2) != 0 or case["updates"] or case["gapped"] or off or stride > 1:
         ctx.nontrivial = True
